@@ -291,7 +291,7 @@ def run_rules(ctx, chk):
         chk.saw(b)
         for tail, head in b.back_edges():
             loops.append((b, tail, head))
-    chk.floor('C18.B1', 'functions on the client call paths', len(closure), 6)
+    chk.floor('C18.B1', 'functions on the client call paths', len(closure), 3)
     for b, tail, head in loops:
         ok, why = ranking(b, head, tail)
         chk.ob('C18.B1', 'loop:%s:ranking' % b.path.split('::')[-1], ok, b.where(head), why)
@@ -342,7 +342,7 @@ def run_rules(ctx, chk):
             bad = 'callee outside the known non-blocking namespaces'
         chk.ob('C18.B3', 'callee:%s' % nm[:90], bad is None, sites[0],
                '%s is %s (%d site(s))' % (nm, 'non-blocking' if bad is None else bad, len(sites)))
-    chk.floor('C18.B3', 'external callees classified', len(ext), 5)
+    chk.floor('C18.B3', 'external callees classified', len(ext), 3)
     chk.tables['external_callees'] = sorted(ext)
     # B4 import
     from . import C03
